@@ -129,12 +129,11 @@ theorem lv4Write_synced_diff (H : Bytes → Bytes) (mac : Bytes → Bytes → By
     (p : PartSt) (hk : c.kind = .diff) (hp : c.parts[0]? = some p) (data : Bytes) (n : Nat) (c' : Cont)
     (hH : ∀ x, (H x).length = 0x20) (hmac : ∀ k x, (mac k x).length = 0x10)
     (hs : Synced H c)
-    (hg : geomOK (p.P c.F) p.tree p.master = true)
+    (g : GeomP (p.P c.F) p.tree p.master)
     (hta : TablesApart p.dpfs p.tree)
     (hwf : DescWF ⟨p.difi, p.ivfc, p.dpfs, p.master⟩ p.descSize)
     (hL1 : 0x200 ≤ c.tableOff) (hL2 : c.tableOff + c.tableSize ≤ p.pOff) (hL3 : p.pOff ≤ c.F.length)
     (h : lv4Write H mac cm c 0 data = .ok (n, c')) : Synced H c' := by
-  have g := geomOK_spec _ _ _ hg
   have hs0 := hs
   obtain ⟨c0, ho, hst⟩ := hs
   rw [hk] at ho
